@@ -108,14 +108,62 @@ def check_export(ctx, fl, e, n, v, scope, k, decimals=3, sep=" ", headers=True, 
                     return
 
 
+def locked_engine(fl, hi):
+    """the abstract engine of FldGrid!Fires: input j has the integer grid 0..hi[j]; the rules read the last input"""
+    n = len(hi)
+    ins = [fl.InputVariable(f"i{j + 1}", minimum=0.0, maximum=float(h), terms=[fl.Triangle("t", 0.0, float(h) / 2, float(h))]) for j, h in enumerate(hi)]
+    last = ins[-1]
+    last.terms = [fl.Function("A", "le(abs(x % 8 - 1.5), 0.5)"), fl.Function("B", "eq(x % 8, 5)")]
+    for t in last.terms:
+        t.load()
+    out = fl.OutputVariable("o", minimum=0.0, maximum=4.0, lock_previous=True, defuzzifier=fl.WeightedAverage(), terms=[fl.Constant("c1", 1.0), fl.Constant("c2", 2.0)])
+    e = fl.Engine("locked", input_variables=ins, output_variables=[out],
+                  rule_blocks=[fl.RuleBlock("rb", conjunction=fl.Minimum(), disjunction=fl.Maximum(), implication=None, activation=fl.General())])
+    e.rule_blocks[0].rules = [fl.Rule.create(f"if {last.name} is A then o is c1", e), fl.Rule.create(f"if {last.name} is B then o is c2", e)]
+    return e
+
+
+def locked_table(ctx, fl, hi, col):
+    e = locked_engine(fl, hi)
+    rows = 1
+    for h in hi:
+        rows *= h + 1
+    equal = all(h == hi[0] for h in hi)
+    case = {"radices": [h + 1 for h in hi], "rows": rows, "lock_previous": True}
+    ctx.count()
+    ctx.traces += 1
+    ctx.case(("table", tuple(hi)), nontrivial=True)
+    try:
+        if equal:
+            text = fl.FldExporter(input_values=False, headers=False).to_string_from_scope(e, values=hi[0] + 1, scope=fl.FldExporter.ScopeOfValues.EachVariable)
+        else:       # unequal radices: the grid is handed over as a reader
+            import itertools as it
+            src = "\n".join(" ".join(f"{float(d):.3f}" for d in idx) for idx in it.product(*[range(h + 1) for h in hi])) + "\n"
+            text = fl.FldExporter(input_values=False, headers=False).to_string_from_reader(e, io.StringIO(src))
+    except Exception as exn:
+        ctx.violation(f"FldExporter/locked-table/raises-{type(exn).__name__}", case, "a dataset", f"{type(exn).__name__}: {exn}")
+        return
+    got = [ln.strip() for ln in text.split("\n") if ln.strip()]
+    want = ["nan" if c == 0 else f"{float(c):.3f}" for c in col]
+    if len(got) != len(want):
+        ctx.violation("FldExporter/locked-table/row-count", case, len(want), len(got))
+        return
+    for i, (a, b) in enumerate(zip(got, want)):
+        if a != b:
+            ctx.violation("FldExporter/locked-table/output-value", dict(case, row=i), b, a,
+                          note=f"row {i} of {rows}: the output locks its previous value; the engine, carried from row to row after one restart, produces {b}, the export prints {a}")
+            return
+
+
 def run(ctx: core.Ctx):
     fl = core.import_fuzzylite()
     rng = random.Random(ctx.seed)
     ctx.extra["_rng"] = rng
-    head = "SPECIFICATION Spec\nCONSTANTS VMax = 2000\n  KMax = 5\n  Emit = {e}\n  FloorRoot = {f}\n"
-    g = ctx.tlc("MC_FldGrid", write_cfg("MC_FldGrid", head.format(e="TRUE", f="FALSE") + "INVARIANT RootIsIntegerRoot\nINVARIANT CounterIsLexicographic\nINVARIANT CounterStopsAtEnd\nINVARIANT EmitInv\nCHECK_DEADLOCK FALSE\n"), workers=16)
+    head = "SPECIFICATION Spec\nCONSTANTS VMax = 2000\n  KMax = 5\n  Emit = {e}\n  FloorRoot = {f}\n  RestartEvery = {r}\n"
+    g = ctx.tlc("MC_FldGrid", write_cfg("MC_FldGrid", head.format(e="TRUE", f="FALSE", r=0) + "INVARIANT RootIsIntegerRoot\nINVARIANT CounterIsLexicographic\nINVARIANT CounterStopsAtEnd\nINVARIANT HoldsAcrossRows\nINVARIANT EmitInv\nCHECK_DEADLOCK FALSE\n"), workers=16)
     ctx.expect_holds(g, "MC_FldGrid")
-    ctx.expect_canary(ctx.tlc("MC_FldGrid", write_cfg("MC_FldGrid_canary", head.format(e="FALSE", f="TRUE") + "INVARIANT RootIsIntegerRoot\nCHECK_DEADLOCK FALSE\n"), workers=4), "FloorRoot")
+    ctx.expect_canary(ctx.tlc("MC_FldGrid", write_cfg("MC_FldGrid_canary", head.format(e="FALSE", f="TRUE", r=0) + "INVARIANT RootIsIntegerRoot\nCHECK_DEADLOCK FALSE\n"), workers=4), "FloorRoot")
+    ctx.expect_canary(ctx.tlc("MC_FldGrid", write_cfg("MC_FldGrid_canary2", head.format(e="FALSE", f="FALSE", r=1024) + "INVARIANT HoldsAcrossRows\nCHECK_DEADLOCK FALSE\n"), workers=4), "RestartEvery")
     roots = {(r["v"], r["n"]): r["k"] for r in g.emitted if r["kind"] == "root"}
     counts = [r for r in g.emitted if r["kind"] == "count"]
     if len(roots) != 8000 or len(counts) < 20:
@@ -136,6 +184,12 @@ def run(ctx: core.Ctx):
             raise MachineryError("itertools.product order differs from the specification's enumeration")
         ctx.traces += 1
     ctx.sample({"maximum": counts[3]["hi"], "visited_first": counts[3]["visited"][:5]})
+    # the table of an engine that locks its previous output, over more than a thousand rows (spec: FldGrid!RowValue)
+    tables = [r for r in g.emitted if r["kind"] == "table"]
+    if len(tables) < 4:
+        raise MachineryError(f"expected 4 tables, got {len(tables)}")
+    for tb in tables:
+        locked_table(ctx, fl, tb["hi"], tb["col"])
     # exports
     engines = {n: make_engine(fl, n, RANGES) for n in (1, 2, 3, 4)}
     reversed_engines = {n: make_engine(fl, n, RANGES_REVERSED) for n in (1, 2, 3, 4)}
@@ -203,6 +257,28 @@ def run(ctx: core.Ctx):
 def replay(v) -> int:
     fl = core.import_fuzzylite()
     c = v["case"]
+    if "radices" in c:          # locked table: the column of FldGrid!RowValue recomputed here, the export compared row by row
+        hi = [r - 1 for r in c["radices"]]
+        col, prev = [], 0
+        for idx in itertools.product(*[range(r) for r in c["radices"]]):
+            d = idx[-1] % 8
+            prev = 1 if d in (1, 2) else 2 if d == 5 else prev
+            col.append(prev)
+
+        class R:
+            bad = 0
+            def count(self): pass
+            traces = 0
+            def case(self, *a, **k): pass
+            def violation(self, kind, case, want, got, note="", **k):
+                R.bad += 1
+                print(f"{kind}: expected {want}, observed {got}  {note}")
+        locked_table(R(), fl, hi, col)
+        if R.bad:
+            print("VIOLATION property=C18 replay=(given)")
+            return 1
+        print(f"locked table over {len(col)} rows: every row is the engine's value carried from the previous row")
+        return 0
     if "inputs" not in c:
         print(c, v["expected"], v["observed"])
         return 1
